@@ -200,6 +200,9 @@ func (ev *Env) heap(name, valSort string, old bool) string {
 		if t, ok := ev.heaps[name]; ok {
 			return t
 		}
+		// the heap had not been touched when the snapshot was taken: its initial version
+		ev.st.heap(name, valSort)
+		return name + "@0"
 	}
 	if old {
 		// not in snapshot: it did not exist at entry => its initial version
@@ -581,6 +584,32 @@ func (ev *Env) call(e *ast.CallExpr, old bool) Val {
 			return Val{S: "Bool", T: fmt.Sprintf("(forall ((%s Int)) (=> (and (<= %s %s) (< %s %s)) %s))", bn, lo.T, bn, bn, hi.T, body.T)}
 		}
 		return Val{S: "Bool", T: fmt.Sprintf("(exists ((%s Int)) (and (<= %s %s) (< %s %s) %s))", bn, lo.T, bn, bn, hi.T, body.T)}
+	case "atloop":
+		// atloop(k, e): the value e had when loop k was entered on this path
+		lit, ok := e.Args[0].(*ast.BasicLit)
+		if !ok || len(e.Args) != 2 {
+			limitf("atloop(k, e)")
+		}
+		k, _ := strconv.Atoi(lit.Value)
+		snap := ev.st.frames[0].loopSnap[k]
+		if snap == nil {
+			limitf("atloop(%d, ...): loop %d was not entered on this path", k, k)
+		}
+		ev2 := *ev
+		ev2.heaps = snap.heaps
+		ev2.vars = snap.vars
+		return ev2.evo(e.Args[1], false)
+	case "maparr":
+		// maparr("dom") / maparr("val"): the heap arrays of map[string]string objects
+		lit, ok := e.Args[0].(*ast.BasicLit)
+		if !ok {
+			limitf("maparr(\"dom\"|\"val\")")
+		}
+		which, _ := strconv.Unquote(lit.Value)
+		if which == "dom" {
+			return Val{S: "(Array Int (Array Str Bool))", T: ev.heap("M.Str.Str.dom", "(Array Str Bool)", old)}
+		}
+		return Val{S: "(Array Int (Array Str Str))", T: ev.heap("M.Str.Str.val", "(Array Str Str)", old)}
 	case "variant":
 		// the measure recorded at the head of loop k for the current iteration
 		lit, ok := e.Args[0].(*ast.BasicLit)
